@@ -2,6 +2,7 @@
    dolby_vision::utils::add_start_code_emulation_prevention_3_byte  (escape)
    dolby_vision::utils::clear_start_code_emulation_prevention_3_byte (unescape) *)
 From Coq Require Import List NArith Lia Bool.
+From DV Require Import Bits.
 Import ListNotations.
 Open Scope N_scope.
 
@@ -13,7 +14,7 @@ Definition esc_step (acc : list N) (b : N) : list N :=
       if (p2 =? 0) && (p1 =? 0) && (b <=? 3) then b :: 3 :: acc else b :: acc
   | _ => b :: acc
   end.
-Definition escape (l : list N) : list N := rev (fold_left esc_step l []).
+Definition escape (l : list N) : list N := frev (fold_left esc_step l []).
 
 (* unescape: window over the INPUT, exactly as coded *)
 Fixpoint unesc_aux (p2 p1 : N) (l : list N) : list N :=
@@ -72,7 +73,7 @@ Qed.
 
 Lemma escape_long a b c t : escape (a :: b :: c :: t) = a :: b :: c :: esc_fwd b c t.
 Proof.
-  unfold escape. cbn [fold_left].
+  unfold escape. rewrite frev_rev. cbn [fold_left].
   change (esc_step (esc_step (esc_step [] a) b) c) with [c; b; a].
   rewrite fold_esc_fwd. reflexivity.
 Qed.
